@@ -262,3 +262,8 @@ def effects(kind):
     if kind == 'set_order':
         return ST.hashseed_hook()
     return 0
+
+
+def vec_eq(a, b):
+    import numpy as np
+    return bool(np.array_equal(np.asarray(a), np.asarray(b)))
